@@ -123,11 +123,17 @@ json.dump(out, sys.stdout)
     return res
 
 
+LONG = "T_" + "very_long_terminal_name_" * 2
 MODULES = [
     "R: T ';';\nterminals\nT: /\\w+/;\n",
     "R: T | T T;\nterminals\nT: /[a-z]/;\n",
     "R: T ';' | U ';';\nterminals\nT: /\\w+/;\nU: /[a-z]+/;\n",
     "R: 't' Q;\nQ: T | EMPTY;\nterminals\nT: /\\w/;\n",
+    # names longer than any fixed-width sort key, equal in their first 40
+    # characters, all of them reduce lookaheads of one state
+    "R: Q " + LONG + "1 | Q " + LONG + "2 | Q " + LONG + "3;\nQ: 't';\n"
+    "terminals\n" + LONG + "1: /x/;\n" + LONG + "2: /y/;\n"
+    + LONG + "3: /z/;\n",
 ]
 ROOTS = [
     "import 'a.pg' as a;\nimport 'b.pg' as b;\nS: X+;\nX: a.R | b.R;\n",
